@@ -335,20 +335,40 @@ def translate_tables(run: Run) -> dict:
             return f'.one {c}' if isinstance(c, int) else f'.rng {c[0]} {c[1]}'
         return '[' + ', '.join(one(c) for c in l) + ']'
 
+    def lean_def(name, l, out):
+        """`def name : List CP := …`; long lists are split into chunk definitions (a single
+        literal of > ~1000 entries exceeds the elaborator's recursion limit)"""
+        if len(l) <= 400:
+            out.append(f'def {name} : List CP := {lean_list(l)}')
+            return
+        parts = []
+        for i in range(0, len(l), 400):
+            parts.append(f'{name}_part{i // 400}')
+            out.append(f'def {parts[-1]} : List CP := {lean_list(l[i:i + 400])}')
+        out.append(f'def {name} : List CP := ' + ' ++ '.join(parts))
+
     out = ['/- GENERATED by harness/c13.py from the live /repo and unicodedata -- do not edit -/',
            'import EPV.Model.UnicodeSubset', 'namespace EPV.Gen.C13', 'open EPV.USet', '',
            f'def unicodeVersion : String := "{us.unicode_version()}"',
            f'def unidataVersion : String := "{unicodedata.unidata_version}"', '']
     for k in names:
-        out.append(f'def impl_{k} : List CP := {lean_list(cats[k])}')
-        out.append(f'def oracle_{k} : List CP := {lean_list(oracle[k])}')
+        lean_def(f'impl_{k}', cats[k], out)
+        lean_def(f'oracle_{k}', oracle[k], out)
     out.append('')
     out.append('def implTables : List (String × List CP) := [' +
                ', '.join(f'("{k}", impl_{k})' for k in names) + ']')
     out.append('def oracleTables : List (String × List CP) := [' +
                ', '.join(f'("{k}", oracle_{k})' for k in names) + ']')
-    out.append('def majors : List (List CP × List (List CP)) := [' + ', '.join(
-        f'(impl_{k}, [' + ', '.join(f'impl_{kk}' for kk in names if len(kk) == 2 and kk[0] == k) + '])'
+    # certificate for "major = union of subcategories": the subcategory entries merged by first
+    # code point (the kernel checks that it is an interleaving of the subcategory tables, that it is
+    # sorted, and that merging touching entries gives the major table -- nothing here is trusted)
+    for k in names:
+        if len(k) == 1:
+            flat = sorted((c for kk in names if len(kk) == 2 and kk[0] == k for c in cats[kk]),
+                          key=lambda c: c if isinstance(c, int) else c[0])
+            lean_def(f'flat_{k}', flat, out)
+    out.append('def majors : List (List CP × List CP × List (List CP)) := [' + ', '.join(
+        f'(impl_{k}, flat_{k}, [' + ', '.join(f'impl_{kk}' for kk in names if len(kk) == 2 and kk[0] == k) + '])'
         for k in names if len(k) == 1) + ']')
     out.append('def minors : List (List CP) := [' +
                ', '.join(f'impl_{k}' for k in names if len(k) == 2) + ']')
